@@ -289,6 +289,19 @@ partial def quantGroupQuantFirst (q : String) : Bool :=
     | _ :: rest => go rest
   go toks
 
+/-- An alternation that is itself a branch of an alternation. -/
+def nestedAlternation (q : String) : Bool :=
+  let toks := (tokenize (q.length + 1) q.toList #[]).toList
+  -- stack: `true` = inside `[ … ]` at this level
+  let rec go : List Bool → List Tok → Bool
+    | _, [] => false
+    | st, .lb :: rest => (st.head?.getD false) || go (true :: st) rest
+    | st, .lp :: rest => go (false :: st) rest
+    | st, .rb :: rest => go (st.drop 1) rest
+    | st, .rp :: rest => go (st.drop 1) rest
+    | st, _ :: rest => go st rest
+  go [] toks
+
 def hasQuantifierToken (q : String) : Bool :=
   let toks := (tokenize (q.length + 1) q.toList #[]).toList
   toks.any fun t => match t with | .quant _ => true | _ => false
@@ -356,14 +369,15 @@ def runCase (s : St) : String :=
         else if !quant && !completeB impl model then
           let bad := model.filter fun x => countOf x model > countOf x impl
           let subsumed := bad.all fun x => impl.any fun y => y.1 == x.1 && y != x && subBag x.2 y.2
-          let kind := if subsumed then "incomplete-subsumed" else if trailingAnchorAfterGroup s.query then "incomplete-trailing-anchor-after-group" else if anchorAfterSupertype s.sups s.query then "incomplete-anchor-after-supertype" else if s.hasError && (s.query.splitOn "(ERROR").length > 1 && (s.query.splitOn ": ").length > 1 then "incomplete-field-under-error-node" else if (s.query.splitOn "[").length > 1 && (s.query.splitOn "(_ ").length > 1 then "incomplete-wildroot-branch-in-alternation" else if anchorAfterNestedWildcard s.query then "incomplete-anchor-after-nested-wildcard" else if anchorAfterAlternation s.query then "incomplete-anchor-after-uncaptured-alternation" else if uncapturedSubtree s.query then "incomplete-uncaptured-subtree" else if (s.query.splitOn "(MISSING").length > 1 then "incomplete-missing-uncaptured" else if (s.query.splitOn "(ERROR ").length > 1 then "incomplete-error-children-uncaptured" else if anchorAfterUncapturedSubtree s.query then "incomplete-anchor-after-uncaptured-subtree" else if anchorAfterUnnamedWildcard s.query then "incomplete-strict-anchor-after-uncaptured-unnamed-wildcard" else if anchorAfterUncaptured s.query then "incomplete-anchor-uncaptured" else "incomplete"
+          let kind := if subsumed then "incomplete-subsumed" else if nestedAlternation s.query then "incomplete-nested-alternation-loses-inner-branches" else if trailingAnchorAfterGroup s.query then "incomplete-trailing-anchor-after-group" else if anchorAfterSupertype s.sups s.query then "incomplete-anchor-after-supertype" else if s.hasError && (s.query.splitOn "(ERROR").length > 1 && (s.query.splitOn ": ").length > 1 then "incomplete-field-under-error-node" else if (s.query.splitOn "[").length > 1 && (s.query.splitOn "(_ ").length > 1 then "incomplete-wildroot-branch-in-alternation" else if anchorAfterNestedWildcard s.query then "incomplete-anchor-after-nested-wildcard" else if anchorAfterAlternation s.query then "incomplete-anchor-after-uncaptured-alternation" else if uncapturedSubtree s.query then "incomplete-uncaptured-subtree" else if (s.query.splitOn "(MISSING").length > 1 then "incomplete-missing-uncaptured" else if (s.query.splitOn "(ERROR ").length > 1 then "incomplete-error-children-uncaptured" else if anchorAfterUncapturedSubtree s.query then "incomplete-anchor-after-uncaptured-subtree" else if anchorAfterUnnamedWildcard s.query then "incomplete-strict-anchor-after-uncaptured-unnamed-wildcard" else if anchorAfterUncaptured s.query then "incomplete-anchor-uncaptured" else "incomplete"
           s!"{s.id} judge=FAIL {kind} first={repr bad.head!} {info}"
         else if quant && onlyOptionalQuantifiers s.query && !(maximalMissing model impl).isEmpty then
           -- quantified patterns: which of several overlapping repetitions is reported is
           -- implementation-defined, but a binding that no other binding extends (the longest match)
           -- must be covered by a reported match of that pattern
           let bad := maximalMissing model impl
-          let kind := if quantifierBeforeAnchor s.query then "quantified-maximal-binding-missing-anchor-after-quantifier"
+          let kind := if nestedAlternation s.query then "incomplete-nested-alternation-loses-inner-branches"
+            else if quantifierBeforeAnchor s.query then "quantified-maximal-binding-missing-anchor-after-quantifier"
             else if trailingAnchorAfterGroup s.query then "incomplete-trailing-anchor-after-group"
             else if anchorAfterSupertype s.sups s.query then "incomplete-anchor-after-supertype"
             else if anchorAfterNestedWildcard s.query then "incomplete-anchor-after-nested-wildcard"
@@ -374,7 +388,8 @@ def runCase (s : St) : String :=
         else if quant && !(neverBound model impl).isEmpty then
           -- any quantifier: a (capture, node) pair that some binding of the definition has must
           -- occur in some reported match of that pattern
-          let kind := if quantifierBeforeAnchor s.query then "quantified-maximal-binding-missing-anchor-after-quantifier"
+          let kind := if nestedAlternation s.query then "incomplete-nested-alternation-loses-inner-branches"
+            else if quantifierBeforeAnchor s.query then "quantified-maximal-binding-missing-anchor-after-quantifier"
             else if trailingAnchorAfterGroup s.query then "incomplete-trailing-anchor-after-group"
             else if anchorAfterSupertype s.sups s.query then "incomplete-anchor-after-supertype"
             else if anchorAfterNestedWildcard s.query then "incomplete-anchor-after-nested-wildcard"
